@@ -245,6 +245,48 @@ fn play_opts(calls: &[Call], rng: &mut Rng, r: &mut Report, rp: &dyn Fn() -> Jso
                 _ => {}
             }
         }
+        // select_function / select_block: Ok iff the index designates an existing function / block of the selected
+        // function (None always succeeds); then exactly that is selected (a newly selected function has no block
+        // selected); a failed call leaves the selection alone
+        match c {
+            Call::SelectFunction(i) => {
+                let n = before.functions.len();
+                let want_ok = i.map(|k| k < n).unwrap_or(true);
+                if (res == Res::Ok) != want_ok {
+                    fail(r, "select-rule", format!("select_function({:?}) returned {:?} with {} function(s)", i, res, n));
+                    return;
+                }
+                if res == Res::Ok && (b.selected_function() != *i || (i.is_some() && b.selected_block().is_some()) || (i.is_none() && b.selected_block().is_some())) {
+                    fail(r, "select-result", format!("after select_function({:?}) the selection is ({:?}, {:?})", i, b.selected_function(), b.selected_block()));
+                    return;
+                }
+                if res == Res::Err && (b.selected_function(), b.selected_block()) != sel_before {
+                    fail(r, "failed-call-changed-selection", "the call returned an error but the selection changed".into());
+                    return;
+                }
+            }
+            Call::SelectBlock(i) => {
+                let nb = sel_before.0.and_then(|f| before.functions.get(f)).map(|f| f.blocks.len());
+                let want_ok = match (i, nb) {
+                    (None, _) => true,
+                    (Some(k), Some(nb)) => *k < nb,
+                    (Some(_), None) => false,
+                };
+                if (res == Res::Ok) != want_ok {
+                    fail(r, "select-rule", format!("select_block({:?}) returned {:?}; selected function {:?} has {:?} block(s)", i, res, sel_before.0, nb));
+                    return;
+                }
+                if res == Res::Ok && (b.selected_block() != *i || b.selected_function() != sel_before.0) {
+                    fail(r, "select-result", format!("after select_block({:?}) the selection is ({:?}, {:?})", i, b.selected_function(), b.selected_block()));
+                    return;
+                }
+                if res == Res::Err && (b.selected_function(), b.selected_block()) != sel_before {
+                    fail(r, "failed-call-changed-selection", "the call returned an error but the selection changed".into());
+                    return;
+                }
+            }
+            _ => {}
+        }
         // select_function_by_name: Ok iff a function's definition id carries an OpName with that string; then
         // exactly such a function is selected and no block
         if let Call::SelectByName(i) = c {
